@@ -11,12 +11,12 @@ type StackN<const N: usize, const S: usize> = any_vec::mem::StackN<N, S>;
 #[cfg(feature = "lib_alloc")]
 anyvec_pbt::configs! {
     Tr0a16_Multi: Tr0a16, Multi, dyn Cloneable, G_LAYOUT;
-    Tr16_Multi:   Tr16,   Multi, dyn Cloneable, G_LAYOUT;
+    Tr16_Multi:   Tr16,   Multi, dyn Cloneable, G_LAYOUT | G_FAULT;
     Pl3_Multi:    Pl3,    Multi, dyn Cloneable, G_LAYOUT;
     Tr24_Heap:    Tr24,   Heap,   dyn Cloneable, G_BACKEND | G_RAW;
     Pl8_Heap:     Pl8,    Heap,   dyn Cloneable, G_RAW;
     Tr8_Fixed:    Tr8,    FixedB, dyn Cloneable, G_BACKEND;
-    Tr8_StackN:   Tr8,    StackN<4, 40>,  dyn Cloneable, G_BACKEND | G_STACK;
+    Tr8_StackN:   Tr8,    StackN<4, 40>,  dyn Cloneable, G_BACKEND | G_STACK | G_FAULT;
     Tr8_Heap_Sync:  Tr8, Heap, dyn Sync,                    G_CONSTRAINT | G_RAW;
 }
 
